@@ -88,7 +88,8 @@ TEXT = {
 
 def main():
     props = [json.loads(l) for l in open(os.path.join(HERE, 'properties.jsonl'))]
-    built = sorted(f[:-3].upper() for f in os.listdir(os.path.join(HERE, 'rules')) if f.startswith('c') and f[1:3].isdigit())
+    import re
+    built = sorted(f[:-3].upper() for f in os.listdir(os.path.join(HERE, 'rules')) if re.match(r'^c\d\d\.py$', f))
     na_path = os.path.join(HERE, 'tools', 'not_applicable.json')
     na_reasons = json.load(open(na_path)) if os.path.exists(na_path) else {}
     checks, na = [], []
